@@ -12,6 +12,9 @@ def replay_witness(run, k):
         out = replay.native_calls(run.program.repo, [dict(func=w['function'], args=w['args'])])[0]
         if 'expect_exc' in w:
             return (not out['ok']) and out['exc'].startswith(w['expect_exc'])
+        if w.get('expect') == 'nan':
+            import json as _j
+            return out['ok'] and 'nan' in _j.dumps(out['result'])
         chk = replay.ConcreteChecker(run.program, w.get('contract', w['function']))
         return bool(chk.check_ensures(w['args'], out))
     from . import creplay
